@@ -57,6 +57,19 @@ CHECKS = {
         note=TL_NOTE + " Stage ibc adds bridge Ics20Withdrawal / unlock event-id reuse on a chain with an open IBC channel.",
         design_ref="2 C04",
     ),
+    "C12": dict(
+        category="model_checking",
+        technique="explicit-state BFS over the real NextSubmission / BlobSubmitter pending-block logic with conductor-style decoding of every submission",
+        text=("BFS over every sequence of <= 4 (thorough 7) events from {deliver(next height, one of 5-6 size classes of incompressible "
+              "payload around the 1 MB compressed limit, 0..2 rollups), take} for rollup filters {all, only one rollup, only an "
+              "absent rollup}, each state replayed on a fresh real BlobSubmitter (real add_sequencer_block_to_next_submission / "
+              "has_capacity / NextSubmission::try_add / take). Every taken submission is decoded as the conductor does (brotli, "
+              "protobuf lists, checked types) and must contain exactly the batched blocks' metadata in height order and exactly the "
+              "non-filtered rollup data (byte-identical to split_for_celestia incl. proofs), compressed size <= 1000000 and equal to "
+              "the blob bytes; every delivered height is accounted for once, in order."),
+        note="The select loop of BlobSubmitter::run is mirrored by the harness (deliver only while has_capacity; re-add the pushed-back block after a take); payload sizes outside the alphabet are not covered.",
+        design_ref="2 C12",
+    ),
     "C13": dict(
         category="model_checking",
         technique="explicit-state BFS over the real Mempool (history replay under a paused clock) with structural and API-level oracles",
